@@ -43,7 +43,20 @@ structure DSt where
   mismatches : Nat := 0
   specfails : Nat := 0
 
-def sortNat (l : List Nat) : List Nat := (l.toArray.qsort (· < ·)).toList
+def sortNat (l : List Nat) : List Nat := ((l.toArray.qsort (· < ·)).toList).eraseDups
+
+/-! Only the property-relevant denotation of the bookkeeping attributes is compared (DESIGN.md §0.3):
+    * notified_problem_users as a set (order and multiplicity are the code's business);
+    * last_notified_state_per_user as the function the code reads, `(uint8)Get(user)`: a missing entry is 0;
+    * next_notification clamped to the present: two instants in the past are the same "due now";
+    * no_more_notifications only where it is read (interval ≤ 0);
+    * suppressed_notifications restricted to the four types the notification object ever withholds;
+    * the stash as the ordered list of (type, force);
+    * notification_number not at all (no delivery depends on it). -/
+def lnsDenot (ids : List Nat) (f : Nat → Option Nat) : List (Nat × Nat) :=
+  ids.filterMap fun u => let v := (f u).getD 0; if v == 0 then none else some (u, v)
+def clampNext (now next : Int) : Int := if next < now then now else next
+def sup4 (n : Nat) : Nat := (Sup.ofNat n).toNat
 
 def splitSemi (ws : List String) : List (List String) :=
   let rec go (acc : List String) (out : List (List String)) : List String → List (List String)
@@ -140,8 +153,10 @@ def handleOp (d : DSt) (n : Nat) (k : Nat) (kind : OpKind) (ty : NType) (post : 
         | .tick => tickN ob.cfg e fired ob.st []
       let mut d := { d with steps := d.steps + 1 }
       d := match kind with | .send => { d with sends := d.sends + 1 } | .tick => { d with ticks := d.ticks + fired }
-      let implT := (evs, cmds, sortNat npu, lns, next, noMore, number, sup, stash)
-      let modelT := (mev, cmdsOf mev, sortNat ms.npu, lnsList ms.lns, ms.next, ms.noMore, ms.number, ms.sup.toNat,
+      let ids := List.range 8
+      let nm (b : Bool) : Bool := decide (ob.cfg.interval ≤ 0) && b
+      let implT := (evs, cmds, sortNat npu, lnsDenot ids (lnsOf lns), clampNext e.now next, nm noMore, sup4 sup, stash)
+      let modelT := (mev, cmdsOf mev, sortNat ms.npu, lnsDenot ids ms.lns, clampNext e.now ms.next, nm ms.noMore, ms.sup.toNat,
                      ms.stash.map fun p => (p.1.bit, if p.2 then 1 else 0))
       let agree := implT == modelT
       if !agree then
@@ -171,6 +186,7 @@ def handleOp (d : DSt) (n : Nat) (k : Nat) (kind : OpKind) (ty : NType) (post : 
       if sup != 0 && ob.st.sup.toNat == 0 then d := { d with stashed := d.stashed + 1 }
       if sup == 0 && ob.st.sup.toNat != 0 then d := { d with released := d.released + 1 }
       -- resynchronise on the implementation after a mismatch so that one divergence is reported once
+      -- (the model keeps its own values where they differ harmlessly)
       let st' : C03.St := if agree then ms else
         { npu := npu, lns := lnsOf lns, next := next, noMore := noMore, number := number, sup := Sup.ofNat sup,
           stash := stash.filterMap fun p => (NType.ofBit? p.1).map fun ty => (ty, p.2 != 0) }
